@@ -353,7 +353,12 @@ pub fn c07(rep: &mut Rep, seed: u64) {
         }
     }
     // unusable sets are rejected: a carrier that has factors but no grid supply factor
-    for bad in ["GASNATURAL, INSITU, A_RED, A, 1.0, 0.0, 0.0", "ELECTRICIDAD, INSITU, A_RED, A, 1.0, 0.0, 0.0\nGASNATURAL, RED, SUMINISTRO, A, 0.0, 1.2, 0.25"] {
+    for bad in ["GASNATURAL, INSITU, A_RED, A, 1.0, 0.0, 0.0", "ELECTRICIDAD, INSITU, A_RED, A, 1.0, 0.0, 0.0\nGASNATURAL, RED, SUMINISTRO, A, 0.0, 1.2, 0.25",
+        // a carrier without its grid supply factor next to complete ones, with / without the ambient and solar lines
+        "ELECTRICIDAD, RED, SUMINISTRO, A, 0.4, 2.0, 0.3\nGASNATURAL, INSITU, SUMINISTRO, A, 1.0, 0.0, 0.0",
+        "ELECTRICIDAD, RED, SUMINISTRO, A, 0.4, 2.0, 0.3\nEAMBIENTE, RED, SUMINISTRO, A, 1.0, 0.0, 0.0\nBIOMASA, INSITU, A_RED, A, 1.0, 0.0, 0.0",
+        "ELECTRICIDAD, RED, SUMINISTRO, A, 0.4, 2.0, 0.3\nEAMBIENTE, RED, SUMINISTRO, A, 1.0, 0.0, 0.0\nTERMOSOLAR, RED, SUMINISTRO, A, 1.0, 0.0, 0.0\nGASNATURAL, RED, A_RED, A, 0.0, 1.2, 0.25",
+        "ELECTRICIDAD, RED, SUMINISTRO, A, 0.4, 2.0, 0.3\nGASNATURAL, RED, SUMINISTRO, A, 0.0, 1.2, 0.25\nBIOMASA, RED, SUMINISTRO, B, 1.0, 0.1, 0.02\nRED1, INSITU, SUMINISTRO, A, 0.0, 1.3, 0.3"] {
         rep.evals += 1;
         if cte::wfactors_from_str(bad, UserWF { red1: None, red2: None }, cte::CTE_USERWF).is_ok() { rep.fail("C07.unusable_rejected", bad, "set with a carrier lacking its grid supply factor accepted".into()); }
     }
@@ -390,6 +395,8 @@ pub fn c10(rep: &mut Rep, seed: u64) {
         "1,CONSUMO,CAL,ELECTRICIDAD,10,20\n1,CONSUMO,ACS,ELECTRICIDAD,5,5\n1,SALIDA,CAL,30,60\n1,SALIDA,ACS,10,10\n1,AUX,4,2\n2,PRODUCCION,EL_INSITU,12,3\n3,CONSUMO,CAL,EAMBIENTE,20,10\n0,CONSUMO,NEPB,ELECTRICIDAD,1,6",
         "0,CONSUMO,CAL,GASNATURAL,100\n4,PRODUCCION,EL_COGEN,30\n4,CONSUMO,COGEN,GASNATURAL,80\n2,CONSUMO,ILU,ELECTRICIDAD,12\n2,PRODUCCION,EL_INSITU,20\n5,CONSUMO,ACS,TERMOSOLAR,7\n5,PRODUCCION,TERMOSOLAR,3",
         "1,CONSUMO,CAL,GASNATURAL,50\n1,AUX,5\n2,CONSUMO,CAL,ELECTRICIDAD,20\n2,CONSUMO,REF,ELECTRICIDAD,10\n2,SALIDA,CAL,30\n2,SALIDA,REF,-10\n2,AUX,4",
+        // a multi-service system with a step without any output (its auxiliary energy of that step must not depend on the run)
+        "1,CONSUMO,CAL,ELECTRICIDAD,10,20,5\n1,CONSUMO,ACS,ELECTRICIDAD,5,5,5\n1,CONSUMO,REF,ELECTRICIDAD,1,1,1\n1,SALIDA,CAL,30,60,0\n1,SALIDA,ACS,10,10,0\n1,SALIDA,REF,-5,-5,0\n1,AUX,4,2,3\n2,CONSUMO,ILU,ELECTRICIDAD,3,3,3",
     ];
     let sig = |t: &str| -> Result<Vec<f32>, String> {
         let c: Components = t.parse().map_err(|e| format!("{}", e))?;
@@ -410,6 +417,11 @@ pub fn c10(rep: &mut Rep, seed: u64) {
         let mut variants: Vec<(String, String)> = vec![];
         for _ in 0..6 { let mut l = lines.clone(); for i in (1..l.len()).rev() { let j = (rng.next() % (i as u64 + 1)) as usize; l.swap(i, j); } variants.push(("reordered lines".into(), l.join("\n"))); }
         variants.push(("comments, blank lines, header, BOM, whitespace".into(), format!("\u{feff}# comment\nvector, tipo, src_dst\n\n{}\n  \n# end", lines.iter().map(|l| format!("  {} # c", l.replace(',', " , "))).collect::<Vec<_>>().join("\n\n"))));
+        variants.push(("BOM + indented meta line + indented lines".into(), format!("\u{feff}    #META CTE_AREAREF: 100\n{}", lines.iter().map(|l| format!("    {}", l)).collect::<Vec<_>>().join("\n"))));
+        variants.push(("BOM + indented comment first".into(), format!("\u{feff}  # comment\n{}", lines.join("\n"))));
+        variants.push(("BOM + indented header first".into(), format!("\u{feff} \tvector, tipo, src_dst\n{}", lines.join("\n"))));
+        variants.push(("BOM only".into(), format!("\u{feff}{}", lines.join("\n"))));
+        variants.push(("indentation only".into(), lines.iter().map(|l| format!("\t  {}  ", l)).collect::<Vec<_>>().join("\n")));
         variants.push(("ids renumbered".into(), lines.iter().map(|l| { let (id, rest) = l.split_once(',').unwrap(); format!("{},{}", id.parse::<i32>().unwrap() * 7 + 100, rest) }).collect::<Vec<_>>().join("\n")));
         variants.push(("id 0 omitted".into(), lines.iter().map(|l| if l.starts_with("0,") { l[2..].to_string() } else { l.to_string() }).collect::<Vec<_>>().join("\n")));
         // split each line in turn in two lines with the same tags whose values add up
@@ -434,7 +446,7 @@ pub fn c10(rep: &mut Rep, seed: u64) {
                 Err(e) => rep.fail("C10.layout", &t, format!("{}: {}", name, e)),
             }
         }
-        for _ in 0..20 {
+        for _ in 0..60 {
             rep.evals += 1;
             match sig(base) { Ok(s) => if s.iter().zip(&want).any(|(x, y)| !eq(*x, *y)) { rep.fail("C10.repeatable", base, "repeating the evaluation gives another result".into()); }, Err(e) => rep.fail("C10.repeatable", base, e) }
         }
